@@ -2298,3 +2298,149 @@ Section Pipeline.
     rewrite E10. apply (per_line_fixed f7 u D7).
   Qed.
 End Pipeline.
+
+(* ------------------------------------------------------------------------------------------------ *)
+(* L007: re-lint after fix *)
+
+Section L007Clears.
+  Variables is_letter is_digit : N -> bool.
+  Variable upper_ascii : N -> option N.
+  Variable keywords : list (list N).
+  Hypothesis up_letter : forall x u, upper_ascii x = Some u -> is_letter u = true.
+  Hypothesis up_noquote : forall x u, upper_ascii x = Some u -> u <> 39 /\ u <> 34 /\ u <> 10.
+  Hypothesis up_idem : forall x u, upper_ascii x = Some u -> upper_ascii u = Some u.
+
+  Notation word_start := (word_start is_letter).
+  Notation word_char := (word_char is_letter is_digit).
+  Notation kw_of := (kw_of upper_ascii keywords).
+  Notation conv_word := (conv_word upper_ascii keywords).
+  Notation word_viol := (word_viol upper_ascii keywords).
+  Notation scan := (l007_scan is_letter is_digit upper_ascii keywords).
+  Notation sN := (scan None None).
+  Notation sQ k := (scan (Some k) None).
+  Notation words := (l007_words is_letter is_digit).
+  Notation wc := (wc is_letter is_digit).
+  Notation stops := (stops is_letter is_digit).
+
+  (* every word found satisfies P *)
+  Definition allw (P : list ch -> Prop) (ws : list (nat * list ch)) : Prop := forall p, In p ws -> P (snd p).
+
+  Lemma wN_quote : forall i c t, is_quote c = true -> words None i None (c :: t) = words (Some (cp c)) (i + width c) None t.
+  Proof. intros i c t H. cbn [l007_words]. rewrite H. reflexivity. Qed.
+  Lemma wN_other : forall i c t, is_quote c = false -> word_start c = false -> words None i None (c :: t) = words None (i + width c) None t.
+  Proof. intros i c t H1 H2. cbn [l007_words]. rewrite H1, H2. reflexivity. Qed.
+  Lemma wQ_cons : forall k i c t, words (Some k) i None (c :: t) = words (if cp c =? k then None else Some k) (i + width c) None t.
+  Proof. reflexivity. Qed.
+
+  Lemma absorbW : forall t i s w, exists i',
+    words None i (Some (s, w)) t = words None i' (Some (s, rev (map wr (take_l wc t)) ++ w)) (trim_l wc t).
+  Proof.
+    induction t as [|c t IH]; intros i s w; [exists i; reflexivity|].
+    cbn [take_l trim_l]. destruct (wc c) eqn:E; [|exists i; reflexivity].
+    unfold wc in E. apply andb_prop in E. destruct E as [E1 E2]. apply negb_true_iff in E1.
+    cbn [l007_words]. rewrite E1.
+    assert (C : word_start c || true && is_digit (cp c) = true) by exact E2. rewrite C.
+    destruct (IH (i + width c)%nat s (wr c :: w)) as (i' & E). exists i'. rewrite E. cbn [map rev]. rewrite <- app_assoc. reflexivity.
+  Qed.
+
+  Lemma boundaryW : forall i s w r, stops r -> words None i (Some (s, w)) r = (S s, rev w) :: words None i None r.
+  Proof.
+    intros i s w r [H|(d & r' & H & Hd)]; subst; [reflexivity|].
+    cbn [l007_words]. destruct (is_quote d) eqn:Eq; [reflexivity|].
+    unfold wc in Hd. rewrite Eq in Hd. cbn [negb andb] in Hd.
+    unfold Lint.word_char in Hd. apply orb_false_elim in Hd. destruct Hd as [H1 H2].
+    rewrite H1, H2. cbn [orb andb]. reflexivity.
+  Qed.
+
+  Lemma wN_word : forall i c t, is_quote c = false -> word_start c = true -> exists i',
+    words None i None (c :: t) = (S i, map wr (c :: take_l wc t)) :: words None i' None (trim_l wc t).
+  Proof.
+    intros i c t H1 H2. cbn [l007_words]. rewrite H1, H2. cbn [orb].
+    destruct (absorbW t (i + width c)%nat i [wr c]) as (i' & E). exists i'. rewrite E.
+    rewrite boundaryW by apply trim_l_stops. rewrite rev_app_distr. rewrite rev_involutive. reflexivity.
+  Qed.
+
+  Lemma wN_word_app : forall i c v x, is_quote c = false -> word_start c = true -> forallb wc v = true -> stops x -> exists i',
+    words None i None (c :: v ++ x) = (S i, map wr (c :: v)) :: words None i' None x.
+  Proof.
+    intros i c v x H1 H2 Hv Hx. destruct (wN_word i c (v ++ x) H1 H2) as (i' & E). exists i'. rewrite E.
+    assert (E1 : take_l wc (v ++ x) = v).
+    { rewrite take_l_app_all by exact Hv. destruct Hx as [Hx|(d & r & Hx & Hd)]; subst; [rewrite app_nil_r; reflexivity|].
+      rewrite take_l_stop by exact Hd. rewrite app_nil_r. reflexivity. }
+    assert (E2 : trim_l wc (v ++ x) = x).
+    { rewrite trim_l_app_all by exact Hv. destruct Hx as [Hx|(d & r & Hx & Hd)]; subst; [reflexivity|].
+      apply trim_l_stop. exact Hd. }
+    rewrite E1, E2. reflexivity.
+  Qed.
+
+  Lemma list_eqb_refl : forall u, list_eqb u u = true.
+  Proof.
+    intro u. unfold list_eqb. rewrite Nat.eqb_refl. cbn [andb]. induction u as [|a u IH]; [reflexivity|].
+    cbn. rewrite N.eqb_refl. exact IH.
+  Qed.
+
+  Lemma encode_asc : forall u, encode (map asc u) = u.
+  Proof. induction u as [|a u IH]; [reflexivity|]. unfold encode in *. cbn. f_equal. exact IH. Qed.
+
+  (* a converted word is not a violation *)
+  Lemma conv_no_viol : forall w, word_viol (map wr (conv_word (map wr w))) = false.
+  Proof.
+    intro w. unfold Lint.conv_word. rewrite (kw_of_wr upper_ascii keywords). destruct (kw_of w) as [u|] eqn:E.
+    - rewrite map_wr_asc. unfold Lint.word_viol. rewrite (kw_of_conv upper_ascii keywords up_idem w u E).
+      rewrite encode_asc. rewrite list_eqb_refl. reflexivity.
+    - rewrite map_wr_wr. unfold Lint.word_viol. rewrite (kw_of_wr upper_ascii keywords), E. reflexivity.
+  Qed.
+
+  Definition clean (ws : list (nat * list ch)) : Prop := allw (fun w => word_viol w = false) ws.
+
+  Lemma clean_nil : clean []. Proof. intros p []. Qed.
+  Lemma clean_cons : forall s w ws, word_viol w = false -> clean ws -> clean ((s, w) :: ws).
+  Proof. intros s w ws H Hc p [Hp|Hp]; [subst; exact H|apply Hc; exact Hp]. Qed.
+
+  Lemma words_clean_n : forall n l, (length l <= n)%nat ->
+    (forall i, clean (words None i None (sN l))) /\ (forall k i, clean (words (Some k) i None (sQ k l))).
+  Proof.
+    induction n as [|n IH]; intros l Hl.
+    - destruct l; [split; intros; apply clean_nil|cbn in Hl; lia].
+    - destruct l as [|c t]; [split; intros; apply clean_nil|]. cbn [length] in Hl.
+      assert (Ht : (length t <= n)%nat) by lia. destruct (IH t Ht) as [IHn IHq]. split.
+      + intro i. destruct (is_quote c) eqn:Eq.
+        * rewrite (sN_quote is_letter is_digit upper_ascii keywords) by exact Eq. rewrite wN_quote by (rewrite is_quote_wr; exact Eq).
+          rewrite cp_wr. apply IHq.
+        * destruct (word_start c) eqn:Ew.
+          -- rewrite (sN_word is_letter is_digit upper_ascii keywords) by assumption.
+             pose proof (take_l_all wc t) as Hv.
+             destruct (conv_shape is_letter is_digit upper_ascii keywords up_letter up_noquote c (take_l wc t) Eq Ew Hv) as (c' & v' & Ec & Q' & W' & V').
+             rewrite Ec. change ((c' :: v') ++ sN (trim_l wc t)) with (c' :: v' ++ sN (trim_l wc t)).
+             destruct (wN_word_app i c' v' (sN (trim_l wc t)) Q' W' V') as (i' & E);
+               [apply (sN_stops is_letter is_digit upper_ascii keywords); apply trim_l_stops|].
+             rewrite E. apply clean_cons.
+             ++ rewrite <- Ec. apply conv_no_viol.
+             ++ assert (Hr : (length (trim_l wc t) <= n)%nat).
+                { pose proof (take_trim_l wc t) as E0. apply (f_equal (@length ch)) in E0. rewrite app_length in E0. lia. }
+                destruct (IH _ Hr) as [IHr _]. apply IHr.
+          -- rewrite (sN_other is_letter is_digit upper_ascii keywords) by assumption.
+             rewrite wN_other by (rewrite ?is_quote_wr, ?(word_start_wr is_letter); assumption). apply IHn.
+      + intros k i. rewrite (sQ_cons is_letter is_digit upper_ascii keywords). rewrite wQ_cons. rewrite cp_wr.
+        destruct (cp c =? k); [apply IHn|apply IHq].
+  Qed.
+
+  Lemma l007_line_clears : forall n l,
+    l007_check_line is_letter is_digit upper_ascii keywords n (l007_fix_line is_letter is_digit upper_ascii keywords l) = [].
+  Proof.
+    intros n l. unfold l007_check_line, l007_fix_line.
+    destruct (words_clean_n (length l) l (le_n _)) as [H _]. specialize (H 0%nat).
+    induction (words None 0%nat None (sN l)) as [|p ws IHw]; [reflexivity|].
+    cbn [flat_map]. rewrite (H p (or_introl eq_refl)). cbn [app]. apply IHw. intros q Hq. apply H. right. exact Hq.
+  Qed.
+
+  Theorem l007_fix_clears : forall t,
+    l007_check is_letter is_digit upper_ascii keywords (l007_fix is_letter is_digit upper_ascii keywords t) = [].
+  Proof.
+    intro t. unfold l007_check, l007_fix.
+    change (join_nl (map (l007_fix_line is_letter is_digit upper_ascii keywords) (split_nl t)))
+      with (per_line (l007_fix_line is_letter is_digit upper_ascii keywords) t).
+    rewrite split_per_line by (apply (l007_line_keeps is_letter is_digit upper_ascii keywords up_noquote)).
+    apply on_lines_nil. intros n l Hl. apply in_map_iff in Hl. destruct Hl as (l0 & E & _). subst. apply l007_line_clears.
+  Qed.
+End L007Clears.
